@@ -195,7 +195,7 @@ def _maxdiff(a, b):
 
 
 def sig(c):
-    return ("need_weights=False," if not c.get("nw", True) else "") + f"h={c['h']},bias={int(c['bias'])},bias_kv={int(c['abkv'])},zero_attn={int(c['aza'])},kdim={c['kdim']},vdim={c['vdim']},batch_first={int(c['bf'])},mask={c['mask']['kind']},kpm={c['kpm']['kind']}"
+    return ("need_weights=False," if not c.get("nw", True) else "") + ("dropout=0.3/eval," if c.get("dropout") else "") + f"h={c['h']},bias={int(c['bias'])},bias_kv={int(c['abkv'])},zero_attn={int(c['aza'])},kdim={c['kdim']},vdim={c['vdim']},batch_first={int(c['bf'])},mask={c['mask']['kind']},kpm={c['kpm']['kind']}"
 
 
 def oracle(case):
@@ -409,6 +409,10 @@ def search(ctx, cases):
             # the way nn.TransformerEncoderLayer / DecoderLayer call their attention: no weights requested
             c = dict(c, nw=False)
             ctx.count("search:oracle:need_weights=False")
+        elif i % 5 == 1:
+            # a layer built with dropout > 0, evaluated in eval() mode (dropout is the identity there for torch.nn)
+            c = dict(c, dropout=0.3)
+            ctx.count("search:oracle:dropout-eval-mode")
         ctx.count("search:oracle")
         res = oracle(c)
         if res:
